@@ -48,6 +48,8 @@ func QToProto(q Q) *webserverv1.Q {
 		return &webserverv1.Q{Query: &webserverv1.Q_Branch{Branch: v.ToProto()}}
 	case *Boost:
 		return &webserverv1.Q{Query: &webserverv1.Q_Boost{Boost: v.ToProto()}}
+	case *Meta:
+		return &webserverv1.Q{Query: &webserverv1.Q_Meta{Meta: v.ToProto()}}
 	default:
 		// The following nodes do not have a proto representation:
 		// - caseQ: only used internally, not by the RPC layer
@@ -56,6 +58,12 @@ func QToProto(q Q) *webserverv1.Q {
 }
 
 func QFromProto(p *webserverv1.Q) (Q, error) {
+	// A request may leave any message field unset, including the query itself
+	// and the children of Not, Type, Symbol and Boost.
+	if p == nil || p.Query == nil {
+		return nil, fmt.Errorf("missing query")
+	}
+
 	switch v := p.Query.(type) {
 	case *webserverv1.Q_RawConfig:
 		return RawConfigFromProto(v.RawConfig), nil
@@ -96,7 +104,7 @@ func QFromProto(p *webserverv1.Q) (Q, error) {
 	case *webserverv1.Q_Meta:
 		return MetaFromProto(v.Meta)
 	default:
-		panic(fmt.Sprintf("unknown query node %T", p.Query))
+		return nil, fmt.Errorf("unknown query node %T", p.Query)
 	}
 }
 
@@ -386,6 +394,13 @@ func MetaFromProto(p *webserverv1.Meta) (*Meta, error) {
 		Field: p.GetKey(),
 		Value: re,
 	}, nil
+}
+
+func (q *Meta) ToProto() *webserverv1.Meta {
+	return &webserverv1.Meta{
+		Key:   q.Field,
+		Value: q.Value.String(),
+	}
 }
 
 func (q *Boost) ToProto() *webserverv1.Boost {
